@@ -82,6 +82,29 @@ def generate(ctx):
         yield {"kind": "pbc", "cls": "ortho-grid", "self": [a], "target": {"point": b},
                "box": [[L[0], 0.0, 0.0], [0.0, L[1], 0.0], [0.0, 0.0, L[2]]],
                "shift_t": [rng.randint(-3, 3) for _ in range(3)], "shift_s": [rng.randint(-3, 3) for _ in range(3)]}
+    # exact ties: binary-friendly boxes (rectangular and triclinic) and separations whose fractional coordinates
+    # are exactly half-integers along one or more box vectors, everything exactly representable.  Which of the
+    # two tied images is taken is the code's business (round-half-even); the SYMMETRY clause holds there too
+    # (rounding is an odd function — seed C19-6: floor(x + 0.5) is not); shift invariance is not demanded at a
+    # tie (the theorem's `NoHalf` hypothesis).
+    for _ in range(ctx.n(400, 6000)):
+        e = [float(rng.choice([2, 4, 8])) for _ in range(3)]
+        if rng.random() < 0.7:
+            box = [[e[0], 0.0, 0.0], [rng.choice([-0.5, -0.25, 0.25, 0.5]) * e[0], e[1], 0.0],
+                   [rng.choice([-0.5, 0.0, 0.25, 0.5]) * e[0], rng.choice([-0.5, 0.0, 0.25]) * e[1], e[2]]]
+            cls = "triclinic-tie"
+        else:
+            box = [[e[0], 0.0, 0.0], [0.0, e[1], 0.0], [0.0, 0.0, e[2]]]
+            cls = "ortho-tie"
+        fr = [rng.choice([0.5, -0.5, 1.5, -1.5, 2.5, 0.25, -0.25, 0.0, 0.75, 1.0]) for _ in range(3)]
+        if not any(abs(abs(f) % 1.0 - 0.5) < 1e-12 for f in fr):
+            fr[rng.randrange(3)] = rng.choice([0.5, -0.5, 1.5])
+        sep = [sum(fr[i] * box[i][j] for i in range(3)) for j in range(3)]
+        c_self = [float(rng.randint(-8, 8)) * 0.25 for _ in range(3)]
+        c_tgt = [c_self[j] + sep[j] for j in range(3)]
+        target = {"point": c_tgt} if rng.random() < 0.5 else {"residue": [c_tgt]}
+        yield {"kind": "pbc", "cls": cls, "self": [c_self], "target": target, "box": box, "tie": True,
+               "shift_t": [0, 0, 0], "shift_s": [0, 0, 0]}
     n_main = ctx.n(12000, 100000)
     prevL = None
     prev_box = None
@@ -289,6 +312,8 @@ def evaluate(ctx, case):
             big = float(max(np.max(np.abs(sh_t)), np.max(np.abs(sh_s)), np.max(np.abs(c_self)), 1.0))
             tol_sh = tol + 64 * 2.3e-16 * big
             for nm, dd, ee in (("target", d_t, e_t), ("self", d_s, e_s), ("both", d_ts, e_ts)):
+                if case.get("tie"):
+                    break
                 if ee is not None or abs(dd - d) > tol_sh:
                     fails.append("lattice-shift")
                     detail["shifted-" + nm] = dd if ee is None else ee
